@@ -438,6 +438,9 @@ Proof.
   all: try (pose proof (ig_sd _ _ I) as X; match goal with E : sd _ = _ |- _ => rewrite E in X end; exact X).
   all: try (right; eexists; split; [reflexivity|]; intros jj Hj; injection Hj as <-; unfold rn_at; simp_st;
             rewrite get_upd_same; [exact Logic.I|rewrite (ig_len _ _ I); assumption]).
+  all: try (intros j Hj; destruct (Nat.eq_dec i j) as [->|N];
+            [match goal with E : get RnDone (rn _) _ = RnLaunched |- _ => rewrite E in Hj; contradiction end
+            |now rewrite get_upd_other]).
 Qed.
 
 Lemma InvGate_reachable c s : reachable_sup c s -> InvGate c s.
@@ -468,9 +471,11 @@ Proof.
   destruct l; try discriminate Ho. injection Ho as ->.
   pose proof (InvGate_reachable _ _ Hre) as I.
   unfold step in Hs. cbn [step0] in Hs.
-  destruct (rn_at s0 i) eqn:Er; try discriminate Hs.
-  destruct (Nat.ltb i (nrun c)) eqn:L; [|discriminate Hs]. apply Nat.ltb_lt in L.
-  assert (N : rn_at s0 i <> RnNot) by (rewrite Er; discriminate).
+  assert (LN : i < nrun c /\ rn_at s0 i <> RnNot).
+  { destruct (rn_at s0 i) eqn:Er; try discriminate Hs; (split; [|discriminate]);
+      destruct (Nat.ltb i (nrun c)) eqn:L; try (apply Nat.ltb_lt in L; exact L);
+      cbn [andb] in Hs; discriminate Hs. }
+  destruct LN as [L N].
   destruct (ig_started _ _ I i L N) as [G|G].
   - rewrite (cancel_evidence_rev _ G). reflexivity.
   - apply orb_true_iff; right. apply forallb_forall. intros k Hk. apply in_seq in Hk.
@@ -487,9 +492,9 @@ Proof.
   destruct l; try discriminate Ho. injection Ho as ->.
   pose proof (InvGate_reachable _ _ Hre) as I.
   unfold step in Hs. cbn [step0] in Hs.
-  destruct (rn_at s0 i) eqn:Er; try discriminate Hs.
-  rewrite mem_ev_rev. destruct (mem_ev (ERunCall i) (hist s0)) eqn:M; [|reflexivity].
-  pose proof (ig_called _ _ I i M) as R. rewrite Er in R. contradiction.
+  destruct (rn_at s0 i) eqn:Er; try discriminate Hs;
+    (rewrite mem_ev_rev; destruct (mem_ev (ERunCall i) (hist s0)) eqn:M; [|reflexivity];
+     pose proof (ig_called _ _ I i M) as R; rewrite Er in R; contradiction).
 Qed.
 
 (* C03 (abort): once Run() has left its start-up loop - after a start-up failure, a closed launch
